@@ -382,9 +382,37 @@ type Sess struct {
 	Dead   string // non-empty once a call hung or panicked
 }
 
-func NewSess(export string) *Sess {
+// NSpellings is the number of equivalent spellings Spelling knows.
+const NSpellings = 8
+
+// Spelling returns the k-th spelling of the sandbox's export directory: all of
+// them name S/export (filepath.Clean gives sb.Export), none is resolved through
+// S/outside by the kernel unless the server hands the uncleaned text to it.
+func (sb *Sandbox) Spelling(k int) string {
+	switch k % NSpellings {
+	case 1:
+		return sb.Export + "/"
+	case 2:
+		return sb.Export + "/."
+	case 3:
+		return sb.S + "//export"
+	case 4:
+		return sb.S + "/./export/"
+	case 5:
+		return sb.S + "/export/../export"
+	case 6:
+		return sb.Export + "//./"
+	case 7:
+		return sb.S + "/nosuch/../export/"
+	}
+	return sb.Export
+}
+
+// NewSess serves the directory named by root (any spelling of it) through a
+// fresh session.
+func NewSess(root string) *Sess {
 	sp := &spy{}
-	fs := spyFS{ufs.NewServer(context.Background(), export), sp}
+	fs := spyFS{ufs.NewServer(context.Background(), root), sp}
 	return &Sess{S: p9p.SFileSys(fs), sp: sp, diroff: map[uint32]int64{}}
 }
 
